@@ -14,9 +14,9 @@ The spec reads the decoded TOML tables itself (`specRead`, `specSectionValue`, `
 shares with the model only the data types, `lookupKey` and the registry.  `disable_all = true` in a
 section means: every error code the section does not mention is set to `false` *in that section*.
 
-The exception classes `D18_*` (decidable predicates on the input) are defined at the end.
+The remaining exception class `D18_pathListNoConcat` is defined at the end.
 -/
-namespace Pya
+namespace Pya.C18
 
 /-- The spec's typing of option values: booleans for boolean options, integers (not booleans) for
 integer options, arrays of strings for the two list kinds. -/
@@ -184,107 +184,43 @@ def tableNodup (body : Table) : Bool :=
     | .arr ovs => ovs.all (fun ov => match ov with | .tbl kvs => decide (keysNodup kvs) | _ => true)
     | _ => true)
 
-/-! ### Exception classes (hypotheses of the `_partial` theorems in Props/C18.lean) -/
-
-/-- The part of a file's top-level table written before / after its `extend_config` key. -/
-def beforeExt : Table → Table
-  | [] => []
-  | kv :: r => if kv.1 == "extend_config" then [] else kv :: beforeExt r
-
-def afterExt : Table → Table
-  | [] => []
-  | kv :: r => if kv.1 == "extend_config" then r else afterExt r
-
-/-- Specificities of the applicable settings of `d` for `mod` contributed by one top-level item:
-the option's own key (specificity 0) or the matching overrides. -/
-def itemSpecs (d : OptDecl) (mod : List String) (kv : String × TV) : List Nat :=
-  if kv.1 == "overrides" then
-    (match kv.2 with
-      | .arr ovs => (ovs.filterMap (overrideEntry d mod)).map (·.1)
-      | _ => [])
-  else if kv.1 == d.name then [0]
-  else []
-
-/-- The `False` that `disable_all = true` yields at top level (emitted after the loop, hence
-always after the instances of the extended file). -/
-def disableSpec (d : OptDecl) (body : Table) : List Nat :=
-  match lookupKey body "disable_all" with
-  | some (.bool true) =>
-    (match lookupKey body d.name with
-      | some (.bool true) => []
-      | _ => if d.isCode then [0] else [])
-  | _ => []
-
-def specsBefore (d : OptDecl) (mod : List String) (body : Table) : List Nat :=
-  (beforeExt body).flatMap (itemSpecs d mod)
-
-def specsAfter (d : OptDecl) (mod : List String) (body : Table) : List Nat :=
-  (afterExt body).flatMap (itemSpecs d mod) ++ disableSpec d body
-
-def ownSpecs (d : OptDecl) (mod : List String) (body : Table) : List Nat :=
-  specsBefore d mod body ++ specsAfter d mod body
-
-def maxNat : List Nat → Option Nat
-  | [] => none
-  | x :: xs => match maxNat xs with
-    | none => some x
-    | some m => some (if x < m then m else x)
-
-/-- Concatenated options: some applicable setting of a *later* file is strictly more specific than
-one of an earlier file's applicable settings, or equally specific while the earlier file's setting
-is written after its `extend_config` key (or comes from `disable_all`) — the concatenation order
-then differs from the documented one. -/
-def D18_lostPriorityOrder (d : OptDecl) (mod : List String) : List Table → Bool
-  | [] => false
-  | b :: rest =>
-    let later := rest.flatMap (ownSpecs d mod)
-    (specsBefore d mod b).any (fun e => later.any (fun r => decide (e < r))) ||
-    (specsAfter d mod b).any (fun e => later.any (fun r => decide (e ≤ r))) ||
-    D18_lostPriorityOrder d mod rest
-
-/-- First-match options: for some file of the stack, the most specific applicable setting of the
-*later* files is strictly more specific than the file's own most specific one, or equally specific
-while none of the file's most specific settings is written before its `extend_config` key. -/
-def D18_lostPriorityFirst (d : OptDecl) (mod : List String) : List Table → Bool
-  | [] => false
-  | b :: rest =>
-    (match maxNat (ownSpecs d mod b), maxNat (rest.flatMap (ownSpecs d mod)) with
-      | some o, some r => decide (o < r) || (r == o && !(specsBefore d mod b).contains o)
-      | _, _ => false) || D18_lostPriorityFirst d mod rest
-
-/-- Class `lostPriority` (site: options.py:428/:434 — the `priority` argument is not passed on to
-the instances, so extended files are *not* ranked below the including file; pyanalyze then ranks a
-later file's setting first whenever it is more specific, or equally specific and met earlier). -/
-def D18_lostPriority (d : OptDecl) (mod : List String) (stack : List Table) : Bool :=
-  if d.kind == .strSeq then D18_lostPriorityOrder d mod stack else D18_lostPriorityFirst d mod stack
-
-/-- Class `concatDefaultTwice` (options.py:177 + :299): a concatenated option with a non-empty
-default gets the default appended twice. -/
-def D18_concatDefaultTwice (d : OptDecl) : Bool := d.kind == .strSeq && !d.dflt.asStrs.isEmpty
-
-/-- Class `pathListNoConcat` (options.py:204): `PathSequenceOption` is list-valued but derives from
-the plain `ConfigOption`, so the first applicable instance wins instead of concatenating. -/
-def D18_pathListNoConcat (d : OptDecl) : Bool := d.kind == .pathSeq
-
-def sectionBoolAsInt (reg : Registry) (kvs : Table) : Bool :=
-  kvs.any fun (k, v) => match reg.find k with
-    | some d => d.kind == .int && v.isBool
-    | none => false
-
+/-- The sections of a file: its top-level table and the tables of its `overrides` array. -/
 def sectionsOf (body : Table) : List Table :=
   body :: (match lookupKey body "overrides" with
     | some (.arr ovs) => ovs.filterMap (fun | .tbl kvs => some kvs | _ => none)
     | _ => [])
 
-/-- Class `boolAsInt` (options.py:150): an integer option is given a TOML boolean. -/
-def D18_boolAsInt (reg : Registry) (stack : List Table) : Bool :=
-  stack.any fun b => (sectionsOf b).any (sectionBoolAsInt reg)
+/-- Domain predicate: some override table of the stack contains an `extend_config` key. The
+property quantifies over files "each with top-level settings and overrides"; pyanalyze accepts the
+key there, the spec does not speak about it. -/
+def extendInOverride (stack : List Table) : Bool :=
+  stack.any fun b => (sectionsOf b).tail.any (fun kvs => kvs.any (·.1 == "extend_config"))
 
-/-- Class `disableAllNotBool` (options.py:420): `disable_all` is given a non-boolean value. -/
-def D18_disableAllNotBool (stack : List Table) : Bool :=
-  stack.any fun b => (sectionsOf b).any fun kvs =>
-    match lookupKey kvs "disable_all" with
-    | some v => !v.isBool
-    | none => false
+/-! ### The kinds of bad input the property names -/
 
-end Pya
+/-- One section shows an unknown key, a wrongly typed value (of an option or of `disable_all`), or
+— inside an override — a nested `overrides`. -/
+def sectionDefect (reg : Registry) (inOverride : Bool) (kvs : Table) : Bool :=
+  kvs.any fun kv =>
+    (!isStructural kv.1 && !specValidSetting reg kv.1 kv.2) ||
+    (kv.1 == "disable_all" && !kv.2.isBool) ||
+    (inOverride && kv.1 == "overrides")
+
+/-- A file shows one of these defects at top level or in a table of an `overrides` array, or its
+`overrides` value is not an array of tables. (Recursive inclusion, a missing file and a non-string
+`extend_config` are `specStack … = none`.) -/
+def namedDefect (reg : Registry) (body : Table) : Bool :=
+  sectionDefect reg false body ||
+  body.any fun kv => kv.1 == "overrides" &&
+    (match kv.2 with
+      | .arr ovs => ovs.any (fun ov => match ov with | .tbl kvs => sectionDefect reg true kvs | _ => true)
+      | _ => true)
+
+/-! ### Exception class (hypothesis of the `_partial` theorem in Props/C18.lean) -/
+
+/-- Class `pathListNoConcat` (options.py `PathSequenceOption` derives from the plain
+`ConfigOption`): a path-list option is list-valued but the first applicable instance wins instead
+of concatenating. The only class left after the fix commits 67f91cf, 7e56ba6, df9545b, 4427783. -/
+def D18_pathListNoConcat (d : OptDecl) : Bool := d.kind == .pathSeq
+
+end Pya.C18
